@@ -8,3 +8,6 @@ import "time"
 func Sleep(d time.Duration) { time.Sleep(d) }
 
 const VirtualClock = false
+
+// ResetClock is a no-op with the real clock.
+func ResetClock() {}
